@@ -143,9 +143,6 @@ def run_cli(src, bits, S, unchecked, lint, expect_lines):
         return None
 
 
-_CLI_SEEN = {}
-
-
 def check_input(stats, src, bits, S, unchecked, lint, cli_roll):
     if '\r' in src or any(0xD800 <= ord(c) <= 0xDFFF for c in src):
         raise Discard('outside the input domain (CR / surrogate)')
@@ -188,11 +185,13 @@ def check_input(stats, src, bits, S, unchecked, lint, cli_roll):
         except svm.AsmError as e:
             return ('asm', 'output does not assemble: %s (%s)\n%s' % (e, opts, src))
     import hashlib
-    want_cli = cli_roll == 0 or hashlib.blake2b(src.encode('utf-8', 'replace'), digest_size=2).digest()[0] < 5
+    # must be a pure function of the input (Hypothesis replays inputs): every CodeGenError other than the three
+    # that text fuzzing produces in bulk goes through the CLI, everything else is sampled by a hash of the text
+    roll = hashlib.blake2b(src.encode('utf-8', 'replace'), digest_size=2).digest()[0]
+    want_cli = cli_roll == 0 or roll < 5
     if stage == 'CodeGenError':
-        key = str(val)[:25]
-        _CLI_SEEN[key] = _CLI_SEEN.get(key, 0) + 1
-        want_cli = want_cli or _CLI_SEEN[key] <= 6
+        bulk = any(k in str(val) for k in ('Level is empty', 'tack size too large', 'ord size must'))
+        want_cli = want_cli or not bulk or roll < 20
     if want_cli:
         stats.cls('cli_runs')
         stats.cls('cli_for_' + stage)
